@@ -343,9 +343,9 @@ def obj_oracle(files, obs):
     if not obs["out_exists"]:
         problems.append(("C02:obj-root", "the checked-out location is not a directory"))
     truth = {r: impl.md5hex(b) for r, b in files.items()}
-    built = {"/".join(k): (h[1] if h else None) for k, h in obs["built"]}
-    loaded = {"/".join(k): (h[1] if h else None) for k, _m, h in obs["loaded"]}
-    if built != truth or len(obs["built"]) != len(files):
+    built = {tuple(k): (h[1] if h else None) for k, h in obs["built"]}
+    loaded = {tuple(k): (h[1] if h else None) for k, _m, h in obs["loaded"]}
+    if built != {tuple(r.split("/")): h for r, h in truth.items()} or len(obs["built"]) != len(files):
         problems.append(("C02:listing-built", "the listing that was built is not {relpath: md5(content)}"))
     if loaded != built or len(obs["loaded"]) != len(obs["built"]):
         problems.append(("C02:reload", "the reloaded listing differs from the listing that was built"))
@@ -394,7 +394,13 @@ def tree_case(ctx, case, items_obj, items_idx, items_bad):
         try:
             slash = case.get("trailing_slash") and ci % 2 == 0
             stage_path = src + "/" if slash else src
-            obs = run_obj(env, src, stage_path)
+            try:
+                obs = run_obj(env, src, stage_path)
+            except Exception as exc:  # noqa: BLE001
+                ctx.oracle_fail(f"C02:obj-exception:{type(exc).__name__}",
+                                f"object-level round trip raised {type(exc).__name__}: {exc}",
+                                {**case, "configs": [list(cfg)]})
+                continue
             for sig, what in obj_oracle(files, obs):
                 ctx.oracle_fail(sig, what, {**case, "configs": [list(cfg)]})
             head, ld, co = obj_expected(obs)
@@ -402,7 +408,13 @@ def tree_case(ctx, case, items_obj, items_idx, items_bad):
             seen_obj.setdefault((stage_path, exp), cfg)
             if cfg[1] not in obs.get("links", [cfg[1]]) and files and any(files.values()):
                 ctx.count("link-fallback:" + cfg[1])
-            iobs = run_idx(env, src)
+            try:
+                iobs = run_idx(env, src)
+            except Exception as exc:  # noqa: BLE001
+                ctx.oracle_fail(f"C02:idx-exception:{type(exc).__name__}",
+                                f"index-level round trip raised {type(exc).__name__}: {exc}",
+                                {**case, "configs": [list(cfg)]})
+                continue
             for sig, what in idx_oracle(files, dirs, iobs):
                 ctx.oracle_fail(sig, what, {**case, "configs": [list(cfg)]})
             iexp = vL([vN(1), vL([v_store(iobs["store"]), v_fsmap(iobs["out_files"]), v_dirs(iobs["out_dirs"])])])
@@ -485,11 +497,15 @@ def file_case(ctx, case, items_file):
         f.write(data)
     for cfg in case["configs"]:
         env = Env(ctx, tuple(cfg))
+        one = {**case, "configs": [list(cfg)]}
         try:
             obs = run_file(env, path, data)
+        except Exception as exc:  # noqa: BLE001
+            ctx.oracle_fail(f"C02:file-exception:{type(exc).__name__}",
+                            f"single-file round trip raised {type(exc).__name__}: {exc}", one)
+            continue
         finally:
             env.close()
-        one = {**case, "configs": [list(cfg)]}
         if obs["out"] != data or not obs["out_isfile"]:
             ctx.oracle_fail("C02:file-roundtrip", "single file checked out with different bytes", one)
         if obs["idx_out"] != data:
